@@ -16,6 +16,8 @@
 (*                           of the first evaluation                        *)
 (*   SucceedsWithoutLoss     without machine loss both invocations succeed  *)
 (*   DiscardReturns          Discard returns                                *)
+(*   CompletesWhenLossesStop after the loss of one machine both invocations *)
+(*                           still succeed (replacements can be started)    *)
 (***************************************************************************)
 EXTENDS Integers, Sequences, FiniteSets, TLC, Json, IOUtils
 
@@ -50,6 +52,8 @@ End == /\ s <= Len(Recs) /\ i = Len(Recs[s].events) + 1
                   \o (IF r.reuse = "ok" /\ (r.rows # r.wantrows \/ r.sum # r.wantsum) THEN <<Fail(r, "RowsOfFirstEvaluation")>> ELSE <<>>)
                   \o (IF kills = 0 /\ (r.run1 # "ok" \/ r.reuse # "ok") THEN <<Fail(r, "SucceedsWithoutLoss")>> ELSE <<>>)
                   \o (IF r.discard /\ r.run1 = "ok" /\ ~r.discardret THEN <<Fail(r, "DiscardReturns")>> ELSE <<>>)
+                  \* one machine is lost, replacements can be started, nothing else fails: the lost outputs are recomputed
+                  \o (IF kills = 1 /\ (r.run1 # "ok" \/ r.reuse # "ok") THEN <<Fail(r, "CompletesWhenLossesStop")>> ELSE <<>>)
           IN bad' = bad \o fails
        /\ s' = s + 1 /\ i' = 0 /\ UNCHANGED <<st, kills>>
 
